@@ -18,7 +18,7 @@ META = {
         'symbolic triangle, a symbolic query point and outside point in general position and is compared with the orientation-test '
         'point-in-triangle oracle.'),
     'outside': ['arcs (chord approximation via np.linspace / ceil: numeric)', 'polygons with more than 4 edges; Bezier boundaries for enclosure',
-                'is_contained_by (needs the Bezier-Bezier subdivision of C12)', 'rounding'],
+                'is_contained_by: its composition only (crossing test, boxes and enclosure test are stubs with their contracts)', 'rounding'],
     'assumptions': ['general position for enclosure: probe not through a vertex, not (nearly) parallel to an edge'],
 }
 
@@ -241,6 +241,95 @@ def fam_encloses(R, tri):
             R.sample({'result': bool(r), 'decisions': ''.join('TF'[not d[0]] for d in ctx.decisions[:ctx.pos])})
 
 
+REPLAY_CONTAINED = """
+ib, ob = %r, %r
+outer = Path(Line(complex(ob[0], ob[2]), complex(ob[1], ob[2])), Line(complex(ob[1], ob[2]), complex(ob[1], ob[3])),
+             Line(complex(ob[1], ob[3]), complex(ob[0], ob[3])), Line(complex(ob[0], ob[3]), complex(ob[0], ob[2])))
+inner = Path(Line(complex(ib[0], ib[2]), complex(ib[1], ib[3])))
+# the inner segment lies strictly inside the rectangle: contained, not crossing, start enclosed
+strictly = ob[0] < ib[0] <= ib[1] < ob[1] and ob[2] < ib[2] <= ib[3] < ob[3]
+if strictly:
+    got = inner.is_contained_by(outer)
+    if got is not True and got != True:
+        REPRODUCED('%%r.is_contained_by(rectangle %%r) = %%r although the segment lies strictly inside it' %% (inner, ob, got))
+    out = Path(Line(complex(ob[1] + 1 + ib[0] - ob[0], ib[2]), complex(ob[1] + 1 + ib[1] - ob[0], ib[3])))
+    got = out.is_contained_by(outer)
+    if got:
+        REPRODUCED('%%r.is_contained_by(rectangle %%r) = %%r although the segment lies outside it' %% (out, ob, got))
+"""
+
+
+def fam_contained(R):
+    """Path.is_contained_by on two paths known through: whether they cross (Path.intersect, C11/C12), the inner start point, both
+    bounding boxes (C08) and the even-odd enclosure of the start point (path_encloses_pt, the other families of this check)."""
+    import svgpathtools.path as P
+    from svgpathtools.path import Path, Line
+    R.bound(paths='two stub paths: crossing flag, start point, boxes and enclosure symbolic')
+    R.stub('Path.intersect(justonemode) -> [marker] iff the symbolic flag `cross`', 'Path.bbox -> symbolic boxes (the inner box contains the inner start)',
+           'path_encloses_pt -> symbolic flag `enclosed` (implies the point lies in the outer box)')
+    rec = []
+
+    def run():
+        del rec[:]
+        cx = Ctx.cur
+        cross, enc = z3.Bool('cross'), z3.Bool('enclosed')
+        pt = symc('pt')
+        ib = [symr('i_' + n) for n in ('xmin', 'xmax', 'ymin', 'ymax')]
+        ob = [symr('o_' + n) for n in ('xmin', 'xmax', 'ymin', 'ymax')]
+        cx.assume(ib[0].e <= ib[1].e, ib[2].e <= ib[3].e, ob[0].e <= ob[1].e, ob[2].e <= ob[3].e)
+        cx.assume(ib[0].e <= pt.real.e, pt.real.e <= ib[1].e, ib[2].e <= pt.imag.e, pt.imag.e <= ib[3].e)
+        cx.assume(z3.Implies(enc, z3.And(ob[0].e <= pt.real.e, pt.real.e <= ob[1].e, ob[2].e <= pt.imag.e, pt.imag.e <= ob[3].e)))
+        # not crossing and enclosed start: the whole inner path, hence its box, lies inside the outer box
+        cx.assume(z3.Implies(z3.And(z3.Not(cross), enc), z3.And(ob[0].e <= ib[0].e, ib[1].e <= ob[1].e, ob[2].e <= ib[2].e, ib[3].e <= ob[3].e)))
+        inner = Path(Line(0j, 1 + 0j))
+        outer = Path(Line(0j, 1 + 0j), Line(1 + 0j, 1j), Line(1j, 0j))
+
+        def isect(other, justonemode=False, tol=1e-12):
+            rec.append(('intersect', other, justonemode))
+            return ['crossing'] if SB(cross) else []
+        inner.intersect = isect
+        inner.point = lambda t: (rec.append(('point', t)), pt)[1]
+        inner.bbox = lambda: tuple(ib)
+        outer.bbox = lambda: tuple(ob)
+
+        def enc_stub(p, opt, path):
+            rec.append(('encloses', p, opt, path))
+            return SB(enc)
+        def cplx(re=0, im=0):
+            if isinstance(re, (SR, SC)) or isinstance(im, SR):
+                return tosc(re) + tosc(im) * 1j
+            return complex(re, im)
+        with patched(P, path_encloses_pt=enc_stub, min=sym_min, max=sym_max, complex=cplx):
+            r = inner.is_contained_by(outer)
+        return cross, enc, pt, ib, ob, inner, outer, r, list(rec)
+
+    for ctx, (kind, val) in explore(run, maxpaths=500, logic=None):
+        R.path(ctx)
+        if kind != 'ok':
+            R.unexpected(ctx, 'unexpected %s %r' % (kind, val))
+            continue
+        cross, enc, pt, ib, ob, inner, outer, r, rc = val
+
+        def cex(m):
+            i_, o_ = [mval(m, b) for b in ib], [mval(m, b) for b in ob]
+            return {'cls': 'is_contained_by differs from (no crossing and start enclosed)', 'inputs': {'inner_box': i_, 'outer_box': o_, 'cross': str(m.eval(cross)), 'enclosed': str(m.eval(enc))},
+                    'script': REPLAY_CONTAINED % (i_, o_)}
+        strictly = [ob[0].e + 1 <= ib[0].e, ib[1].e + 1 <= ob[1].e, ob[2].e + 1 <= ib[2].e, ib[3].e + 1 <= ob[3].e, z3.Not(cross), enc,
+                    pt.real.e == ib[0].e, pt.imag.e == ib[2].e, zabs(ob[0].e) <= 50, zabs(ob[1].e) <= 50, zabs(ob[2].e) <= 50, zabs(ob[3].e) <= 50]
+        claim = zbool(r) == z3.And(z3.Not(cross), enc)
+        R.ob('contained=(no crossing and start enclosed)', ctx, claim, cex=cex, robust=strictly + [z3.Not(claim)])
+        for c_ in rc:
+            if c_[0] == 'encloses':
+                opt = tosc(c_[2])
+                R.ob('probe-end-outside-outer-box', ctx, z3.Or(opt.real.e < ob[0].e, opt.real.e > ob[1].e, opt.imag.e < ob[2].e, opt.imag.e > ob[3].e), cex=cex)
+                R.ob('probe-start=inner-start', ctx, z3.And(ceq(c_[1], pt), z3.BoolVal(c_[3] is outer)), cex=cex)
+            if c_[0] == 'intersect':
+                R.ob('crossing-test-against-outer', ctx, z3.BoolVal(c_[1] is outer), cex=cex)
+            if c_[0] == 'point':
+                R.ob('inner-start-is-point(0)', ctx, lift(c_[1]).e == 0, cex=cex)
+        R.sample({'result': str(r)[:40]})
+
+
 def families(tier):
     M = 'vf.props.c14'
     fams = []
@@ -251,4 +340,5 @@ def families(tier):
         fams.append(('area-%s' % k, M, 'fam_area', {'kinds': k}))
     for t in (TRIANGLES if tier == 'thorough' else ['ccw-acute']):
         fams.append(('encloses-%s' % t, M, 'fam_encloses', {'tri': t}))
+    fams.append(('is-contained-by', M, 'fam_contained', {}))
     return fams
